@@ -29,7 +29,7 @@ ASSUMPTIONS = ["any injective map from time steps to recorded engine columns (th
                "implied normals are compared within the rounding bound of the cumulative sum: 16*eps*(T*max|z| + max|X|/(sigma*sqrt(dt)))",
                "the distributional clauses of the property are not decided by this check (partial claim)"]
 PROBES = ["implied_normals", "noise_stall", "sigma_zero_skeleton", "merton_zero_intensity", "kou_zero_intensity", "instrument_engine",
-          "init_nondefault", "drift_nonzero", "float64", "n_steps_1", "n_steps_2"]
+          "init_nondefault", "drift_nonzero", "float64", "n_steps_1", "n_steps_2", "horizon_not_multiple_of_dt"]
 FNS = ["generate_brownian", "generate_geometric_brownian", "generate_merton_jump", "generate_kou_jump", "MertonJumpStock", "KouJumpStock"]
 
 
@@ -148,7 +148,10 @@ def _execute(program, stats, hist):
                                                 dtype=dtype, engine=eng)
                         stats.probe("kou_zero_intensity")
                     stats.probe("instrument_engine")
-                    inst.simulate(n_paths=n, time_horizon=(T - 1) * dtv, init_state=(init,) if init is not None else None)
+                    frac = [0.0, 0.0, 0.4, 0.75][op.get("seed", op.get("torch_seed", 0)) % 4] if T >= 2 else 0.0
+                    if frac:
+                        stats.probe("horizon_not_multiple_of_dt")
+                    inst.simulate(n_paths=n, time_horizon=(T - 1 - frac) * dtv, init_state=(init,) if init is not None else None)
                     out = inst.spot
                     T = out.shape[1]
             except Exception as e:
@@ -226,7 +229,10 @@ def _execute(program, stats, hist):
                                                                dt=dtv, dtype=dtype).spot
                 else:
                     inst = pfi.LocalVolatilityStock(make_sigma_fn("zero"), dt=dtv, dtype=dtype)
-                    inst.simulate(n_paths=n, time_horizon=(T - 1) * dtv, init_state=(init,) if init is not None else None)
+                    frac = [0.0, 0.0, 0.4, 0.75][op.get("seed", op.get("torch_seed", 0)) % 4] if T >= 2 else 0.0
+                    if frac:
+                        stats.probe("horizon_not_multiple_of_dt")
+                    inst.simulate(n_paths=n, time_horizon=(T - 1 - frac) * dtv, init_state=(init,) if init is not None else None)
                     out = inst.spot
                     T = out.shape[1]
             except Exception as e:
